@@ -1148,6 +1148,34 @@ inline model::MLib library(Rng& r, const Cfg& cfg) {
             fix(r2.origin.y);
         }
     }
+    if (cfg.mode == canon::GDS && c.offgrid) {
+        // GDSII expands an explicit repetition into plain elements, each at origin + offset rounded as one sum: give
+        // labels and references offsets that are off the grid as well (never a tie in the sum), so that rounding the two
+        // parts one by one gives another grid point than rounding the sum
+        auto loosen = [&](const Pt& origin, model::MRep& rep) {
+            if (rep.type == model::REP_NONE || !r.chance(0.5)) return;
+            auto detie = [](dg_t base, dg_t& v) {
+                if (llabs((base + v) % 10) == 5) v += 1;
+            };
+            if (rep.type == model::REP_EXPLICIT && rep.offs.size() <= 64) {
+                for (auto& o : rep.offs) {
+                    o.x += r.range(-4, 4);
+                    o.y += r.range(-4, 4);
+                    detie(origin.x, o.x);
+                    detie(origin.y, o.y);
+                }
+            } else if ((rep.type == model::REP_EX || rep.type == model::REP_EY) && rep.coords.size() <= 64) {
+                for (auto& v : rep.coords) {
+                    v += r.range(-4, 4);
+                    detie(rep.type == model::REP_EX ? origin.x : origin.y, v);
+                }
+            }
+        };
+        for (auto& cell : m.cells) {
+            for (auto& l : cell.labels) loosen(l.origin, l.rep);
+            for (auto& r2 : cell.refs) loosen(r2.origin, r2.rep);
+        }
+    }
     return m;
 }
 
